@@ -161,7 +161,16 @@ def generate(sc, expected_product=None, expected_apply=None):
         w('%s struct definition %s;' % (head, body))
         for n, c in enumerate(undef):
             base = 'nd_indirect' if (sc['indirect'] and n % 2 == 1) else 'not_defined'
-            w('template<> struct definition<%s> : %s {};' % (_combo_types(c, first), base))
+            if n % 3 == 2:
+                # marked not_defined although the specialization still HAS a fn (the mark is what counts, not the absence of fn)
+                cls = c[1:] if first else c
+                ps = ', '.join('K%d&' % x for x in cls)
+                ks = ', '.join('K%d' % x for x in cls)
+                meth = '' if first else 'using method = M0; '
+                w('template<> struct definition<%s> : %s { %sstatic long fn(%s) { return 1000000 + code_of<%s>(); } };'
+                  % (_combo_types(c, first), base, meth, ps, ks))
+            else:
+                w('template<> struct definition<%s> : %s {};' % (_combo_types(c, first), base))
     else:
         w('%s struct definition : not_defined {};' % head)
         for c in prod:
@@ -173,8 +182,15 @@ def generate(sc, expected_product=None, expected_apply=None):
             meth = '' if first else 'using method = M0; '
             w('template<> struct definition<%s> { %sstatic long fn(%s) { return code_of<%s>(); } };' % (_combo_types(c, first), meth, ps, ks))
         n = 0
-        for c in undef:      # marked combinations outside the default: explicit, some through nd_indirect
-            if sc['indirect'] and n % 2 == 1:
+        for c in undef:      # marked combinations outside the default: explicit, some through nd_indirect, some keeping a fn
+            if n % 3 == 2:
+                cls = c[1:] if first else c
+                ps = ', '.join('K%d&' % x for x in cls)
+                ks = ', '.join('K%d' % x for x in cls)
+                meth = '' if first else 'using method = M0; '
+                w('template<> struct definition<%s> : %s { %sstatic long fn(%s) { return 1000000 + code_of<%s>(); } };'
+                  % (_combo_types(c, first), 'nd_indirect' if sc['indirect'] else 'not_defined', meth, ps, ks))
+            elif sc['indirect'] and n % 2 == 1:
                 w('template<> struct definition<%s> : nd_indirect {};' % _combo_types(c, first))
             n += 1
     w('')
